@@ -78,7 +78,13 @@ func TestVerifC27Command(t *testing.T) {
 			}
 			return ""
 		},
-		Values:  values,
+		Values: values,
+		// json.Marshal of the envelope fails after most of the document was produced: a time.Time
+		// outside the years 0..9999 cannot be marshalled
+		FailEncode: []kit.Value{
+			{Label: "issued-at-year-10000", V: command.Command{Kind: command.KindUpsertNode, IssuedAt: time.Date(10000, 1, 1, 0, 0, 0, 0, time.UTC), Node: values[2].V.(command.Command).Node}},
+			{Label: "task-result-finished-at-year-10000", V: command.Command{Kind: command.KindReportTaskProgress, TaskResult: &command.TaskResult{TaskID: "t", FinishedAt: time.Date(10000, 1, 1, 0, 0, 0, 0, time.UTC)}}},
+		},
 		Headers: [][]byte{[]byte(`{`), []byte(`{"version":1,"command":`), []byte(`{"version":1,"command":{"kind":"`), []byte(`{"version":`)},
 	}
 	kit.Main(t, "C27", func() []*kit.Codec { return []*kit.Codec{codec} }, func(r *ev.R, replaying bool) {
